@@ -104,10 +104,14 @@ CHECKS = {
              "both passes untouched and prints exactly the quoted content), c15_preprocess_sets_nowiki_aside_and_deletes_comments "
              "(Model/Preprocess.v = preprocess_text, compared with the implementation on tag soups: for every arrangement of "
              "plain text, closed comments, nowiki elements and <nowiki/> the nowiki content is set aside as written and each "
-             "comment disappears with one line break before it). The real expand()/parse() are run on nowiki "
+             "comment disappears with one line break before it), c15_text_comments_and_nowiki_end_to_end (the three models chained: a "
+             "page of markup-free text, comments and nowiki elements comes out with every nowiki content entity-quoted, the "
+             "comments gone and the rest as written, in any library and under any options; the chain is compared inside Coq with "
+             "expand() on such pages). The real expand()/parse() are run on nowiki "
              "bodies over a 58-token alphabet in 9 embedding contexts (decoded output = content, no markup left, hooks never "
              "called, single text node) and on documents with comments vs their comment-free form.",
-        note=TRUST + "preprocess_text/_encode/tokenizer are exercised, not modelled; html.unescape on the implementation side.",
+        note=TRUST + "_encode and the tokenizer are exercised, not modelled (on text without brackets and braces _encode has nothing to "
+             "do: that is the encoding the chained theorem uses); html.unescape on the implementation side.",
         ref="DESIGN.md section 4 C15"),
     "C05": dict(
         technique="Coq proofs (depth limit in-band; loop detector sound and complete for repeated suffixes) + model correspondence on cyclic libraries + totality sweep of every parser function",
@@ -202,6 +206,10 @@ CHECKS = {
              "the shape the parser builds is read back by the table machine of Model/Tables.v as exactly that tree, at any size and "
              "nesting depth, and the trees of written tables have that shape (parse, to_wikitext, parse gives the first tree); the "
              "emitter model is compared inside Coq with the tokens of the real to_wikitext output on the trees of written tables. "
+             "Theorems c19_blocks_written_back_are_the_page and c19_block_structure_survives_the_round_trip: a page tree of "
+             "sections, paragraphs, rules and lists written back in document order is the page it was parsed from, so the page "
+             "machine of Model/Blocks.v reads it back as the same tree; the write-back function is compared inside Coq with the "
+             "block lines of the real to_wikitext output. "
              "PARTIAL: equivalence of the tree after to_wikitext + parse (up to whitespace at block boundaries), the fixed-point "
              "clause and the list-argument API are decided by execution on generated documents (sections, lists, tables with "
              "URL-safe attributes, inline markup, templates, parser functions, HTML elements, definition lists).",
